@@ -1,0 +1,207 @@
+//go:build verif
+// +build verif
+
+// Accessors for the C20 model-checking harness (/verif/checks/c20).  Add-only,
+// compiled only with build tag `verif`; nothing here changes pool behaviour:
+// every function either reads pool state under the pool lock or calls one of
+// the pool's own critical sections (addTxsLocked, runReorg, removeTx) exactly
+// the way the pool's goroutines do.
+
+package core
+
+import (
+	"sort"
+	"time"
+
+	"github.com/youchainhq/go-youchain/common"
+	"github.com/youchainhq/go-youchain/core/types"
+)
+
+// VerifC20NewStoppedPool builds a pool with NewTxPool and then shuts its two
+// background goroutines (loop, scheduleReorgLoop) down the same way Stop()
+// does (chainHeadSub.Unsubscribe -> loop closes reorgShutdownCh -> both return).
+// All data structures stay usable; the caller now plays scheduler.
+func VerifC20NewStoppedPool(config TxPoolConfig, chain blockChain) *TxPool {
+	pool := NewTxPool(config, chain)
+	pool.chainHeadSub.Unsubscribe()
+	pool.wg.Wait()
+	return pool
+}
+
+// VerifC20Add is addTxs without the promote request: sender caching, then
+// addTxsLocked under pool.mu.  It returns the error of the add and the dirty
+// account set that addTxs would have handed to requestPromoteExecutables.
+// `local` has the meaning of AddLocals (true) / AddRemotes (false).
+func (pool *TxPool) VerifC20Add(tx *types.Transaction, local bool) (error, []common.Address) {
+	if local {
+		local = !pool.config.NoLocals // as AddLocals
+	}
+	types.Sender(pool.signer, tx)
+	pool.mu.Lock()
+	errs, dirty := pool.addTxsLocked([]*types.Transaction{tx}, local)
+	pool.mu.Unlock()
+	out := append([]common.Address{}, dirty.flatten()...)
+	sort.Slice(out, func(i, j int) bool { return string(out[i][:]) < string(out[j][:]) })
+	return errs[0], out
+}
+
+// VerifC20RunReorg calls the real runReorg synchronously with a batch built
+// like scheduleReorgLoop builds it: reset == (oldHead,newHead) or nil,
+// dirty == merged account set or nil, and a fresh event map.
+func (pool *TxPool) VerifC20RunReorg(hasReset bool, oldHead, newHead *types.Header, dirty []common.Address) {
+	var reset *txpoolResetRequest
+	if hasReset {
+		reset = &txpoolResetRequest{oldHead, newHead}
+	}
+	var set *accountSet
+	if dirty != nil {
+		set = newAccountSet(pool.signer, dirty...)
+	}
+	pool.runReorg(make(chan struct{}), reset, set, make(map[common.Address]*txSortedMap))
+}
+
+// VerifC20EvictTick is the body of loop()'s `case <-evict.C` with the clock
+// made a parameter (time.Since(beat) -> now.Sub(beat)).
+func (pool *TxPool) VerifC20EvictTick(now time.Time) {
+	pool.mu.Lock()
+	for addr := range pool.queue {
+		// Skip local transactions from the eviction mechanism
+		if pool.locals.contains(addr) {
+			continue
+		}
+		// Any non-locals old enough should be removed
+		if now.Sub(pool.beats[addr]) > pool.config.Lifetime {
+			for _, tx := range pool.queue[addr].Flatten() {
+				pool.removeTx(tx.Hash(), true)
+			}
+		}
+	}
+	pool.mu.Unlock()
+}
+
+// VerifC20SeedBeat sets the heartbeat of addr: if force is false only when addr
+// has none.  An account without an entry reads as the zero time, and accounts
+// promoted inside one runReorg get heartbeats nanoseconds apart in map
+// iteration order; the harness replaces such ties by a fixed order so that
+// truncateQueue's choice (map-order dependent in production) is the same on
+// every replay.  Only the relative order of heartbeats is ever changed, and
+// only between accounts whose order production leaves to chance.
+func (pool *TxPool) VerifC20SeedBeat(addr common.Address, t time.Time, force bool) {
+	pool.mu.Lock()
+	if _, ok := pool.beats[addr]; !ok || force {
+		pool.beats[addr] = t
+	}
+	pool.mu.Unlock()
+}
+
+// VerifC20List is the complete content of one txList.
+type VerifC20List struct {
+	Txs     []*types.Transaction // items, sorted by nonce (read from the map, not from the cache)
+	Index   []uint64             // the nonce heap, sorted
+	Cache   []*types.Transaction // the Flatten cache as it is (nil = none)
+	HasNil  bool                 // a nil transaction is stored in items
+	Strict  bool
+	Costcap string
+	Gascap  uint64
+}
+
+// VerifC20Dump is everything the oracle looks at.
+type VerifC20Dump struct {
+	Pending map[common.Address]*VerifC20List
+	Queue   map[common.Address]*VerifC20List
+	All     []*types.Transaction // sorted by hash
+	// priced heap
+	PricedItems int
+	PricedStale int
+	PricedLive  int                  // heap entries whose hash is in all (distinct hashes)
+	PricedDup   int                  // heap entries that repeat a hash already seen in the heap
+	PricedTxs   []*types.Transaction // every heap entry (live, stale and repeated), in heap array order
+	// nonces
+	NoncerRaw  map[common.Address]uint64 // pendingNonces.nonces as stored
+	StateNonce map[common.Address]uint64 // currentState
+	StateBal   map[common.Address]string
+	MaxGas     uint64
+	GasPrice   string
+	Locals     []common.Address
+	Beats      map[common.Address]time.Time
+	Config     TxPoolConfig
+}
+
+func verifC20List(l *txList) *VerifC20List {
+	out := &VerifC20List{Strict: l.strict, Costcap: l.costcap.String(), Gascap: l.gascap}
+	for _, tx := range l.txs.items {
+		if tx == nil {
+			out.HasNil = true
+			continue
+		}
+		out.Txs = append(out.Txs, tx)
+	}
+	sort.Slice(out.Txs, func(i, j int) bool { return out.Txs[i].Nonce() < out.Txs[j].Nonce() })
+	out.Index = append([]uint64{}, (*l.txs.index)...)
+	sort.Slice(out.Index, func(i, j int) bool { return out.Index[i] < out.Index[j] })
+	if l.txs.cache != nil {
+		out.Cache = append([]*types.Transaction{}, l.txs.cache...)
+	}
+	return out
+}
+
+// VerifC20Dump reads every index of the pool under the pool lock.
+func (pool *TxPool) VerifC20Dump(addrs []common.Address) *VerifC20Dump {
+	pool.mu.Lock()
+	defer pool.mu.Unlock()
+	d := &VerifC20Dump{
+		Pending:    map[common.Address]*VerifC20List{},
+		Queue:      map[common.Address]*VerifC20List{},
+		NoncerRaw:  map[common.Address]uint64{},
+		StateNonce: map[common.Address]uint64{},
+		StateBal:   map[common.Address]string{},
+		Beats:      map[common.Address]time.Time{},
+		MaxGas:     pool.currentMaxGas,
+		GasPrice:   pool.gasPrice.String(),
+		Config:     pool.config,
+	}
+	for a, l := range pool.pending {
+		d.Pending[a] = verifC20List(l)
+	}
+	for a, l := range pool.queue {
+		d.Queue[a] = verifC20List(l)
+	}
+	pool.all.Range(func(h common.Hash, tx *types.Transaction) bool {
+		d.All = append(d.All, tx)
+		return true
+	})
+	sort.Slice(d.All, func(i, j int) bool {
+		hi, hj := d.All[i].Hash(), d.All[j].Hash()
+		return string(hi[:]) < string(hj[:])
+	})
+	d.PricedItems = len(*pool.priced.items)
+	d.PricedStale = pool.priced.stales
+	seen := map[common.Hash]bool{}
+	for _, tx := range *pool.priced.items {
+		d.PricedTxs = append(d.PricedTxs, tx)
+		h := tx.Hash()
+		if seen[h] {
+			d.PricedDup++
+			continue
+		}
+		seen[h] = true
+		if pool.all.Get(h) != nil {
+			d.PricedLive++
+		}
+	}
+	pool.pendingNonces.lock.Lock()
+	for a, n := range pool.pendingNonces.nonces {
+		d.NoncerRaw[a] = n
+	}
+	pool.pendingNonces.lock.Unlock()
+	for _, a := range addrs {
+		d.StateNonce[a] = pool.currentState.GetNonce(a)
+		d.StateBal[a] = pool.currentState.GetBalance(a).String()
+	}
+	d.Locals = append([]common.Address{}, pool.locals.flatten()...)
+	sort.Slice(d.Locals, func(i, j int) bool { return string(d.Locals[i][:]) < string(d.Locals[j][:]) })
+	for a, t := range pool.beats {
+		d.Beats[a] = t
+	}
+	return d
+}
